@@ -97,6 +97,43 @@ impl Cfg {
             c04: true,
         }
     }
+    pub fn to_json(&self) -> Value {
+        json!({
+            "variant": self.variant.name(), "vsends": self.vsends, "nsends": self.nsends, "sizes": self.sizes,
+            "drops": self.drops, "dups": self.dups, "advances": self.advances, "steps": self.steps, "cap": self.cap,
+            "disconnects": self.disconnects, "prefix_chunks": self.prefix_chunks, "prefix_unacked": self.prefix_unacked,
+            "c01": self.c01, "c02": self.c02, "c03": self.c03, "c04": self.c04,
+        })
+    }
+    pub fn from_json(v: &Value) -> Option<Cfg> {
+        let a2 = |k: &str| -> Option<[u8; 2]> {
+            let a = v[k].as_array()?;
+            Some([a[0].as_u64()? as u8, a[1].as_u64()? as u8])
+        };
+        Some(Cfg {
+            variant: match v["variant"].as_str()? {
+                "v6t" => Variant::V6T,
+                "v6n" => Variant::V6N,
+                "v7" => Variant::V7,
+                _ => return None,
+            },
+            vsends: a2("vsends")?,
+            nsends: a2("nsends")?,
+            sizes: v["sizes"].as_array()?.iter().map(|x| x.as_u64().unwrap() as usize).collect(),
+            drops: v["drops"].as_u64()? as u8,
+            dups: v["dups"].as_u64()? as u8,
+            advances: v["advances"].as_u64()? as u8,
+            steps: v["steps"].as_array()?.iter().map(|x| x.as_u64().unwrap()).collect(),
+            cap: v["cap"].as_u64()? as usize,
+            disconnects: v["disconnects"].as_u64()? as u8,
+            prefix_chunks: v["prefix_chunks"].as_u64()? as u16,
+            prefix_unacked: v["prefix_unacked"].as_u64()? as u8,
+            c01: v["c01"].as_bool()?,
+            c02: v["c02"].as_bool()?,
+            c03: v["c03"].as_bool()?,
+            c04: v["c04"].as_bool()?,
+        })
+    }
     pub fn label(&self) -> String {
         format!(
             "{} v{}/{} n{}/{} sizes{:?} drops{} dups{} adv{} steps{:?} cap{} disc{} prefix{}+{}",
@@ -155,6 +192,51 @@ impl Act {
     }
 }
 
+impl Act {
+    /// Inverse of `render` (for replay files).
+    pub fn parse(s: &str) -> Option<Act> {
+        let side = |c: &str| -> Option<u8> {
+            match c {
+                "C" => Some(0),
+                "S" => Some(1),
+                _ => None,
+            }
+        };
+        if s == "C.connect" {
+            return Some(Act::Connect);
+        }
+        if s == "clock->next_deadline" {
+            return Some(Act::Advance);
+        }
+        if let Some(r) = s.strip_prefix("clock+step#") {
+            return Some(Act::Step(r.parse().ok()?));
+        }
+        for (kw, mk) in [("deliver[", 0), ("drop[", 1), ("dup[", 2)] {
+            if let Some(r) = s.strip_prefix(kw) {
+                let (idx, to) = r.split_once("]->")?;
+                let (idx, to) = (idx.parse().ok()?, side(to)?);
+                return Some(match mk {
+                    0 => Act::Deliver { to, idx },
+                    1 => Act::Drop { to, idx },
+                    _ => Act::Dup { to, idx },
+                });
+            }
+        }
+        let (who, what) = s.split_once('.')?;
+        let who = side(who)?;
+        match what {
+            "flush" => Some(Act::Flush(who)),
+            "tick" => Some(Act::Tick(who)),
+            "disconnect" => Some(Act::Disconnect(who)),
+            _ => {
+                let r = what.strip_prefix("send(")?.strip_suffix(')')?;
+                let (kind, sz) = r.split_once(",size#")?;
+                Some(Act::Send { side: who, vital: kind == "vital", sz: sz.parse().ok()? })
+            }
+        }
+    }
+}
+
 pub struct PathNode {
     pub parent: Option<Arc<PathNode>>,
     pub act: Act,
@@ -206,6 +288,8 @@ pub struct Mon {
     pub api_disconnected: [bool; 2],
     /// number of non-vital chunks delivered (only for statistics/vacuity)
     pub del_n: [u16; 2],
+    /// number of random draws each endpoint has made (successive draws differ)
+    pub draws: [u8; 2],
 }
 
 pub struct St<E: Ep> {
@@ -525,6 +609,7 @@ impl<E: Ep> NetModel<E> {
             json!({
                 "model": "two-endpoints",
                 "cfg": self.cfg.label(),
+                "cfg_json": self.cfg.to_json(),
                 "variant": self.cfg.variant.name(),
                 "actions": path_json(&p),
                 "state_before_last_action": s.summary(),
@@ -652,7 +737,7 @@ impl<E: Ep> NetModel<E> {
         f: impl FnOnce(&mut E, &mut Cb, &mut Vec<Ev>, &mut Vec<String>),
     ) {
         let mut e = s.ep[side].vclone();
-        let mut cb = Cb::new(s.now, RANDOM[side]);
+        let mut cb = Cb::with_draws(s.now, RANDOM[side], s.mon.draws[side]);
         let mut ev = Vec::new();
         let mut warn = Vec::new();
         let lp = last.path.clone();
@@ -668,6 +753,7 @@ impl<E: Ep> NetModel<E> {
             *fail = Some((panic_sig(&p), format!("panic: {}", p)));
             return;
         }
+        s.mon.draws[side] = s.mon.draws[side].wrapping_add(cb.random_calls as u8);
         let view = e.view(s.now);
         let answered = side == SERVER
             && (view.state == E::ONLINE || view.state_name == "Pending")
@@ -1091,6 +1177,7 @@ impl<E: Ep> NetModel<E> {
                     json!({
                         "model": "two-endpoints",
                         "cfg": self.cfg.label(),
+                        "cfg_json": self.cfg.to_json(),
                         "variant": self.cfg.variant.name(),
                         "actions": path_json(&p),
                         "then_feed": extra,
